@@ -129,6 +129,12 @@ pub trait Harness: Sync {
     fn tol(&self) -> f64 {
         1e-6
     }
+    /// native comparisons allow an absolute slack of this factor times the largest magnitude among the run's goal
+    /// values (rounding noise of quantities that are zero analytically); 0 for harnesses whose goals are pure
+    /// products / powers, where the relative comparison is always meaningful
+    fn noise_floor_factor(&self) -> f64 {
+        1e-9
+    }
     /// is a feasible panic path a violation?
     fn panic_is_violation(&self) -> bool {
         true
@@ -386,6 +392,22 @@ pub fn native_run<H: Harness>(h: &H, model: &BTreeMap<String, f64>, fill: &mut u
     (Outcome::new(), Some("SYMX-INTERNAL: could not complete the model".into()), BTreeMap::new())
 }
 
+/// slack for native comparisons: 1e-9 of the largest magnitude appearing in the run's goals (0 for exact properties)
+fn noise_floor(o: &Outcome<f64>, tol: f64, factor: f64) -> f64 {
+    if tol == 0.0 || factor == 0.0 {
+        return 0.0;
+    }
+    let mut m = 0.0f64;
+    for g in o.goals.iter().chain(o.twins.iter()) {
+        for v in [g.lhs, g.rhs] {
+            if v.is_finite() {
+                m = m.max(v.abs());
+            }
+        }
+    }
+    factor * m
+}
+
 fn assumes_hold(o: &Outcome<f64>) -> bool {
     o.assumes.iter().all(|g| match g.rel {
         Rel::Eq => g.lhs == g.rhs,
@@ -423,8 +445,9 @@ pub fn replay_goal<H: Harness>(h: &H, name: &str, model: &BTreeMap<String, f64>,
             }
             None => {
                 let gs = if twin { &o.twins } else { &o.goals };
+                let floor = noise_floor(&o, h.tol(), h.noise_floor_factor());
                 for g in gs.iter().filter(|g| g.name == name) {
-                    if let Some(d) = native_violation(g, h.tol()) {
+                    if let Some(d) = native_violation_floor(g, h.tol(), floor) {
                         return Some((full, d));
                     }
                 }
@@ -501,6 +524,32 @@ fn confirm_no_witness<H: Harness>(h: &H, name: &str, seed: u64) -> bool {
         }
     }
     tried > 0
+}
+
+/// run many harnesses on a few threads (each harness's queries still go through the shared pool of solver processes)
+pub fn check_harnesses<H: Harness>(hs: &[H], cfg: &RunCfg) -> PartResult {
+    let next = std::sync::atomic::AtomicUsize::new(0);
+    let out: std::sync::Mutex<Vec<(usize, PartResult)>> = std::sync::Mutex::new(vec![]);
+    let nthreads = std::env::var("SYMX_HARNESS_THREADS").ok().and_then(|s| s.parse().ok()).unwrap_or(8usize).min(hs.len().max(1));
+    std::thread::scope(|sc| {
+        for _ in 0..nthreads {
+            sc.spawn(|| loop {
+                let k = next.fetch_add(1, std::sync::atomic::Ordering::SeqCst);
+                if k >= hs.len() {
+                    break;
+                }
+                let r = check_harness(&hs[k], cfg);
+                out.lock().unwrap().push((k, r));
+            });
+        }
+    });
+    let mut v = out.into_inner().unwrap();
+    v.sort_by_key(|x| x.0);
+    let mut total = PartResult::default();
+    for (_, r) in v {
+        total.merge(r);
+    }
+    total
 }
 
 pub fn check_harness<H: Harness>(h: &H, cfg: &RunCfg) -> PartResult {
@@ -738,7 +787,7 @@ pub fn check_harness<H: Harness>(h: &H, cfg: &RunCfg) -> PartResult {
                 let mv: Vec<String> = e.vars.iter().cloned().collect();
                 all_vars.extend(leaf_names_all(nodes, &roots));
                 let text = build_query(&header, &e.text, &asserts, None, &mv);
-                queries.push(Query { label: format!("{} path{} feasible", h.name(), pi), text, timeout_s: if fp { timeout } else { timeout.min(if cfg.tier == Tier::Quick { 10 } else { 30 }) }, model_vars: mv, expect_sat: None });
+                queries.push(Query { label: format!("{} path{} feasible", h.name(), pi), text, timeout_s: if fp { timeout } else { timeout.min(if cfg.tier == Tier::Quick { 3 } else { 20 }) }, model_vars: mv, expect_sat: None });
                 kinds.push(QKind::Feasible { path: pi, panic: panic.clone() });
                 n_groups += 1;
             }
@@ -958,11 +1007,12 @@ pub fn check_harness<H: Harness>(h: &H, cfg: &RunCfg) -> PartResult {
             if panic.is_some() || !assumes_hold(&o) {
                 continue;
             }
+            let floor = noise_floor(&o, h.tol(), h.noise_floor_factor());
             for g in &o.goals {
                 if failed_natively.contains(&g.name) {
                     continue;
                 }
-                if let Some(d) = native_violation(g, h.tol()) {
+                if let Some(d) = native_violation_floor(g, h.tol(), floor) {
                     failed_natively.insert(g.name.clone());
                     res.violations.push(Violation {
                         goal: g.name.clone(),
@@ -1293,7 +1343,8 @@ pub fn check_harness<H: Harness>(h: &H, cfg: &RunCfg) -> PartResult {
                 }
             }
             (QKind::Twin { path, name }, ans) => {
-                if feasible.get(path) == Some(&false) {
+                // the vacuity guard is meaningful only on paths known to be feasible
+                if feasible.get(path) != Some(&true) {
                     continue;
                 }
                 res.twins_expected += 1;
